@@ -318,6 +318,13 @@ Definition create_stage (stage : nat) (p : spln) : CM :=
 
 Definition create : spln -> CM := create_stage 2.
 
+(* planToItems marshals every entry with go-json-experiment, which refuses a Go string that is not valid
+   UTF-8: a plan with such a name, description or plugin name is refused before anything is written (the
+   sqlite vault binds the same strings as TEXT and stores them byte for byte). [str_ok] says which strings
+   the encoder accepts. The theorems are about [create_stage], i.e. about plans whose strings it accepts. *)
+Definition create_checked (str_ok : tok -> bool) (stage : nat) (p : spln) : CM :=
+  fun c => if forallb str_ok (pln_strs p) then create_stage stage p c else (c, false).
+
 (* Create while ReadItem answers an error that is not a 404 (throttling, an unreachable container):
    the Exists pre-check returns that error and Create returns it at once - it fails closed, before
    planToItems and before any batch. (Fault "stage 3" of the correspondence check: readItemErr.) *)
